@@ -34,6 +34,21 @@ MarkNode(x, inCall) ==
             !.children = MarkKids(x.children, c),
             !.defn = [i \in 1..Len(x.defn) |-> MarkKids(x.defn[i], c)]]
 AsIsTree(t) == IF "NoincludeKeptInCallArguments" \in Known THEN MarkNode(t, FALSE) ELSE t
+\* a text that already holds the marker can only come from such an argument
+RECURSIVE HasMarkerSeq(_)
+HasMarkerSeq(s) == Len(s) >= 4 /\ ((s[1] = "<" /\ s[2] = "noinclude" /\ s[3] = "/" /\ s[4] = ">") \/ HasMarkerSeq(Tail(s)))
+RECURSIVE HasMarker(_), HasMarkerKids(_)
+HasMarkerKids(kids) == \E k \in 1..Len(kids) : HasMarker(kids[k])
+HasMarker(x) ==
+  IF IsStr(x) THEN HasMarkerSeq(x.s)
+  ELSE IF IsList(x) THEN HasMarkerKids(x.list)
+  ELSE HasMarkerKids(x.children) \/ (\E k \in 1..Len(x.largs) : HasMarkerKids(x.largs[k]))
+       \/ (\E k \in 1..Len(x.defn) : HasMarkerKids(x.defn[k]))
+CallDev(x, root) ==
+  IF "NoincludeKeptInCallArguments" \in Known /\ (AsIsTree(root) # root \/ HasMarker(x))
+  THEN {"NoincludeKeptInCallArguments"} ELSE {}
+\* the emitter model (as listed, else any combination of its deviations) that reproduces a real text
+EmitterExplains(x, w) == \E D \in SUBSET AllUnparseDevs : Unparse(x, D) = w
 
 EmitDevs == Known \cap AllUnparseDevs
 
@@ -49,9 +64,11 @@ NumKind(x, k) ==
 StandaloneKinds == LevelKinds \cup {"LIST", "TABLE", "BOLD", "ITALIC", "LINK", "TEMPLATE", "TEMPLATE_ARG",
                                    "PARSER_FN", "URL", "HTML", "HLINE"}
 LineStartSpecial == {"SP", "NL", "*", "#", ":", ";", "=", "|", "!", "{", "-", "}"}
-ElemOK(c) == IF IsStr(c) THEN c.s # <<>> ELSE c.kind \in StandaloneKinds
+ElemOK(c) == IF IsStr(c) THEN c.s # <<>> /\ (\A k \in 1..Len(c.s) : c.s[k] \notin Markup) ELSE c.kind \in StandaloneKinds
+\* a string is checked when it denotes plain text (brackets allowed: that is the protection)
+Markup == {":", "|", "!", "{", "}", "<", ">", "'", "=", "*", "#", ";", "&", "_"}
 Eligible(x) ==
-  IF IsStr(x) THEN x.s # <<>> /\ x.s[1] \notin LineStartSpecial
+  IF IsStr(x) THEN x.s # <<>> /\ x.s[1] \notin LineStartSpecial /\ \A k \in 1..Len(x.s) : x.s[k] \notin Markup
   ELSE IF IsNode(x) THEN x.kind \in StandaloneKinds
   ELSE /\ x.list # <<>>
        /\ \A k \in 1..Len(x.list) : ElemOK(x.list[k])
@@ -71,8 +88,7 @@ StepCase ==
          u2 == Unparse(c.t2, EmitDevs)
          ideal1 == Unparse(c.t1, {})
          \* which listed deviations matter for this document
-         devs == {d \in EmitDevs : Unparse(c.t1, {d}) # ideal1}
-                 \cup (IF AsIsTree(c.t1) # c.t1 THEN {"NoincludeKeptInCallArguments"} ELSE {})
+         devs == {d \in EmitDevs : Unparse(c.t1, {d}) # ideal1} \cup CallDev(c.t1, c.t1)
          \* explained = the real code did exactly what the as-is model says where it deviates
          explained == /\ devs # {}
                       /\ c.w1 = u1
@@ -83,7 +99,7 @@ StepCase ==
                                     links |-> <<NumKind(c.t1, "LINK"), NumKind(c.t2, "LINK"), NumKind(c.t3, "LINK")>>,
                                     devs |-> IF explained THEN devs ELSE {},
                                     ideal |-> ideal1])
-        /\ drift' = IF c.w1 = u1 /\ c.w2 = u2 THEN drift
+        /\ drift' = IF (c.w1 = u1 \/ EmitterExplains(c.t1, c.w1)) /\ (c.w2 = u2 \/ EmitterExplains(c.t2, c.w2)) THEN drift
                     ELSE Append(drift, [i |-> i, which |-> IF c.w1 = u1 THEN 2 ELSE 1,
                                         model |-> IF c.w1 = u1 THEN u2 ELSE u1])
   /\ i' = i + 1
@@ -95,11 +111,10 @@ StepSub ==
          el == Eligible(c.x)
          ok == Equiv(c.t, Root(AsKids(c.x)))
          u == Unparse(c.x, EmitDevs)
-         devs == {d \in EmitDevs : Unparse(c.x, {d}) # Unparse(c.x, {})}
-                 \cup (IF AsIsTree(Root(AsKids(c.x))) # Root(AsKids(c.x)) THEN {"NoincludeKeptInCallArguments"} ELSE {})
+         devs == {d \in EmitDevs : Unparse(c.x, {d}) # Unparse(c.x, {})} \cup CallDev(c.x, Root(AsKids(c.x)))
      IN /\ subbad' = IF ~el \/ ok THEN subbad
                      ELSE Append(subbad, [j |-> j, devs |-> IF c.w = u THEN devs ELSE {}])
-        /\ subdrift' = IF c.w = u THEN subdrift ELSE Append(subdrift, [j |-> j, model |-> u])
+        /\ subdrift' = IF c.w = u \/ EmitterExplains(c.x, c.w) THEN subdrift ELSE Append(subdrift, [j |-> j, model |-> u])
         /\ nsub' = IF el THEN nsub + 1 ELSE nsub
   /\ j' = j + 1
   /\ UNCHANGED <<i, bad, drift>>
